@@ -234,7 +234,9 @@ def install_small_maxdiff(max_diff=2 ** 8):
   from paranoid_crypto.lib import paranoid
   ec_aggregate_checks.CheckECKeySmallDifference.__init__.__defaults__ = (
       max_diff,)
-  paranoid._check_factory.clear()
+  factory = getattr(paranoid, '_check_factory', None)
+  if factory is not None:
+    factory.clear()   # registry instances are built lazily from the classes
 
 
 # ------------------------------------------------------------ EC / ECDSA
